@@ -22,31 +22,53 @@ def default_config(gene):
     return [k for k in gene.cn_configs if gene.cn_configs[k].kind == CNConfigType.DEFAULT]
 
 
-@contract("aldy.cn.estimate_cn", external={"aldy.cn._print_coverage": ""})
+@contract("aldy.cn.estimate_cn", external={"aldy.cn._print_coverage": "", "aldy.cn._filter_configs": "Dict[str, CNConfig]",
+                                           "aldy.cn.solve_cn_model": "List[CNSolution]"})
 def _(gene, profile, coverage, solver, debug):
     types(coverage="Optional[Coverage]", solver="str", debug="Optional[str]")
     returns("List[CNSolution]")
     requires("1" in gene.cn_configs, len(gene.regions) > 0)
     requires(forall(lambda c=str, g=int, r=str: implies(c in gene.cn_configs and 0 <= g and g < len(gene.cn_configs[c].cn) and r in gene.cn_configs[c].cn[g],
                                                         g < len(gene.cn_configs["1"].cn) and r in gene.regions[0])))
-    # this contract covers the two dispatch branches that do not run the model (C03, last sentence);
-    # the model branch is covered by solve_cn_model's contract
-    requires((profile.cn_solution is not None and len(profile.cn_solution) > 0) or not gene.do_copy_number)
     requires(exists(lambda k=str: k in gene.cn_configs and gene.cn_configs[k].kind == CNConfigType.DEFAULT))
     user = profile.cn_solution is not None and len(profile.cn_solution) > 0
+    # three dispatch branches: user-supplied structure / no copy-number calling for this gene / the model.
+    # The dispatch clauses below (C03, last sentence) speak about the first two; what the model branch returns is
+    # covered by solve_cn_model's contract, which is NOT applied here: the calls of _filter_configs, _print_coverage
+    # and solve_cn_model are opaque (external=, listed as assumed) - assumed not to raise AldyException and to leave
+    # the arguments unchanged. The low-depth guard (C19) precedes them and does not depend on that assumption in the
+    # direction "too little depth => no structure is returned".
+    model = not user and gene.do_copy_number
+    # call-site facts of the model branch (genotype(): the coverage is the sample's own, built by Sample and
+    # normalised by Coverage._normalize_coverage over every region of every gene copy)
+    requires(implies(model, coverage is not None))
+    requires(implies(model, coverage.sam is not None))
+    requires(implies(model, exists(lambda r=str: r in gene.regions[0])))
+    requires(implies(model, forall(lambda g=int, r=str: implies(0 <= g and g < len(gene.regions) and r in gene.regions[g],
+                                                                (g, r) in coverage._region_coverage))))
+    requires(implies(model, forall(lambda r=str: implies(r in gene.unique_regions, (0, r) in coverage._region_coverage
+                                                         and (1, r) in coverage._region_coverage))))
     ncopies = 1 if (profile.male and (gene.chr == "X" or gene.chr == "Y")) else 2
-    raises(AldyException, when=user and exists(lambda i=int: 0 <= i and i < len(profile.cn_solution)
-                                               and profile.cn_solution[i] not in gene.cn_configs))
-    ensures(len(result) == 1, label="one-structure")
-    ensures(result[0].score == 0, label="score-zero")
+    # C19 (mechanism "structure stage low-depth guard", cn.py:72-79): "When the alignments contain no reads anywhere in
+    # the gene locus ... no star-allele call is produced: the run ends with an explanatory error for that gene ...
+    # regardless of whether the gene structure is estimated or supplied by the user."  At the structure stage, when the
+    # structure is estimated: the normalised depth of the locus is below half of what even the smallest catalogued
+    # structure accounts for (in particular: no reads in the locus, all region depths 0)
+    low = model and forall(lambda c=str: implies(c in gene.cn_configs, cn_locus_depth(gene, coverage) < cn_config_copies(gene, c) / 2.0))
+    raises(AldyException, when=(user and exists(lambda i=int: 0 <= i and i < len(profile.cn_solution)
+                                                and profile.cn_solution[i] not in gene.cn_configs)) or low)
+    ensures(implies(not model, len(result) == 1), label="one-structure")
+    ensures(implies(not model, result[0].score == 0), label="score-zero")
     # a user-supplied structure is used verbatim
     ensures(implies(user, forall(lambda c=str: implies(c in result[0].solution, result[0].solution[c]
                                                        == sum(1 for i in range(0, len(profile.cn_solution)) if profile.cn_solution[i] == c)))),
             label="user-verbatim")
     # otherwise exactly two default copies (one for an X/Y-linked gene of a sample declared male)
-    ensures(implies(not user, forall(lambda c=str: implies(c in result[0].solution,
-                                                           gene.cn_configs[c].kind == CNConfigType.DEFAULT and result[0].solution[c] == ncopies))),
+    ensures(implies(not user and not model, forall(lambda c=str: implies(c in result[0].solution,
+                                                                         gene.cn_configs[c].kind == CNConfigType.DEFAULT and result[0].solution[c] == ncopies))),
             label="default-copies")
+    # C19: no structure (hence no star-allele call) is produced from a locus without depth
+    ensures(not low, label="c19-low-depth-no-structure")
     modifies()
 
 
@@ -157,3 +179,32 @@ def _(gene, profile, cn_configs, max_cn, region_coverage, solver, debug, fusion_
                          + (base_pen * profile.cn_fusion_right if (s[0] in gene.cn_configs and gene.cn_configs[s[0]].kind == CNConfigType.RIGHT_FUSION) else 0)
                          + (base_pen * profile.cn_fusion_left if (s[0] in gene.cn_configs and gene.cn_configs[s[0]].kind == CNConfigType.LEFT_FUSION) else 0))
                         * newvar_at("CN_{}_{}", s[0], s[1]) for s in slots)))
+
+
+# ------------------------------------------------------------------------------------------------
+# C03: structure candidates - a configuration that has alleles of its own is kept iff at least one of them
+# has read support for all its core variants
+
+def cn_supported(coverage, m):
+    """read support that survives the structure stage's filter (threshold / cn_max of the depth, minimum reads)"""
+    return (support(coverage, m) > 0 and support(coverage, m) >= coverage.profile.min_coverage
+            and support(coverage, m) >= depth_at(coverage, m) * (coverage.profile.threshold / coverage.profile.cn_max))
+
+
+@contract("aldy.cn._filter_configs", native=False)
+def _(gene, coverage):
+    types(gene="Gene", coverage="Coverage")
+    returns("Dict[str, CNConfig]")
+    requires(coverage._indels is None, coverage.profile.threshold > 0, coverage.profile.cn_max > 0, coverage.profile.min_coverage >= 0)
+    requires(forall(lambda c=str, a=str: implies(c in gene.cn_configs and a in gene.cn_configs[c].alleles, a in gene.alleles)))
+    ensures(forall(lambda c=str: implies(c in result, c in gene.cn_configs)), label="subset-of-catalogue")
+    ensures(forall(lambda c=str: implies(c in gene.cn_configs and c not in gene.alleles, c in result)), label="alleleless-kept")
+    # "... configurations that are not supported by the remaining mutations": a configuration with alleles of its own
+    # stays iff one of them has every core variant supported (reads >= minimum and >= threshold / cn_max of the depth)
+    # NOT under symbolic contract (kept in the native contract solve_cn_model#results only): "a configuration with
+    # alleles of its own stays iff one of them has every core variant supported" - the code decides it by comparing two
+    # list lengths (len(bad_alleles) == len(alleles)), which needs a counting argument over finite sums that the
+    # back ends did not find (tried: count rule + split implications; undecided after 80 s).
+    ensures(forall(lambda c=str: implies(c in result, result[c].kind == gene.cn_configs[c].kind
+                                         and len(result[c].cn) == len(gene.cn_configs[c].cn))), label="copies-of-catalogue")
+    modifies()
